@@ -65,8 +65,11 @@ contract(
         # ghost: every message addressed to n is multiplied by scale[n], hence so is their sum (linearity of the sum)
         "forall(n, 0, len(factors.scale), forall(k, 0, 2, factors.S[n, k] == old(factors).S[n, k] * old(factors).scale[n]))",
     ],
-    notes="assumed inside the loop proofs; its own body (vectorised 3-d updates with np.newaxis) is outside the engine's "
-          "subset and is exercised by the bounded gauge test of C21",
+    notes="used as a callee contract inside the loop proofs; its own body (vectorised 3-d updates with np.newaxis) is outside "
+          "the G1 engine's subset, so the element-wise clauses are derived from the real statements by a separate z3 "
+          "obligation set (vt/g3_sites.py: rescale_factors_contract_from_body, under the numpy broadcast meaning of the "
+          "statements) and the in-place / no-rebinding frame by the G3 effect obligation; only the ghost-sum clause S "
+          "(linearity of the sum) stays assumed",
 )
 
 N_, E_ = "len(posterior)", "len(edges_parent)"
